@@ -8,7 +8,7 @@ use serde_json::{json, Value};
 
 /// direct, non-stream object suitable as a member of an object stream
 fn compressible(o: &Object) -> bool {
-    !matches!(o, Object::Stream(_) | Object::Reference(_) | Object::Integer(_) | Object::Real(_) | Object::Null | Object::Boolean(_))
+    !matches!(o, Object::Stream(_) | Object::Reference(_))
 }
 
 fn docs(args: &[String]) {
